@@ -24,7 +24,9 @@ Labels == <<"a", "b", "c">>
 Pool == <<"int", "1", ">0", "<10", "(*1 | 2)", "(1 | *2)", "string", "{x: 1}", "{x: int, y?: 2}", "{x: >0}",
           "b", "c.x", "#D", "{y: 1}", "{[string]: int}",
           "(2 | {a: 2} | *\"a\")", "(2 | *int | string)", "(2 | *\"a\" | 1)",
-          "close({x: int})", "a", "_", "{x: b}", "[1, 2]", "[...int]", "\"s\"", "=~\"^s\"", ">1", "<2", ">=1.5", "<=2">>
+          "close({x: int})", "a", "_", "{x: b}", "[1, 2]", "[...int]", "\"s\"", "=~\"^s\"", ">1", "<2", ">=1.5", "<=2",
+          \* one pattern constraint instantiated with different values of an outer field (#M: {T: _, out: [string]: T})
+          "(#M & {T: int}).out", "(#M & {T: string}).out", "{x: \"s\"}">>
 NPool == Len(Pool)
 TopIdx == 21
 
@@ -62,6 +64,8 @@ Fixed == {
   \* bounds that admit numbers but no integer, with the int arriving through a reference
   [l \in 1..3 |-> IF l = 1 THEN <<27, 28, 11>> ELSE IF l = 2 THEN <<1, 0, 0>> ELSE <<2, 0, 0>>],
   [l \in 1..3 |-> IF l = 1 THEN <<29, 30, 11>> ELSE IF l = 2 THEN <<1, 4, 0>> ELSE <<20, 3, 0>>],
+  \* the same pattern expression instantiated twice: {x: 1} satisfies only one instantiation, whatever the order
+  [l \in 1..3 |-> IF l = 1 THEN <<31, 32, 8>> ELSE IF l = 2 THEN <<32, 31, 33>> ELSE <<31, 8, 0>>],
   \* a: >0 & c.x & <10 where c is an erroneous struct (known finding: whether the
   \* reference c.x reports c's error depends on declaration / file order)
   [l \in 1..3 |-> IF l = 1 THEN <<3, 12, 4>> ELSE IF l = 2 THEN <<2, 0, 0>> ELSE <<14, 9, 19>>]
